@@ -161,6 +161,8 @@ func runC06(w *World, r *Report) {
 	// "stops emitting": a batch the downstream rejected is dropped from the batcher, or the final flush of the paused
 	// task sends it again (C14-R3 reset after every flush, C14-R5 the handler error is returned)
 	defer r.importRules(runC14, "C06-", map[string]bool{"C14-R3": true, "C14-R5": true})
+	// a paused task "stops emitting": its reader's shutdown stops every collection and both event subscriptions (C11-R6)
+	defer r.importRules(runC11, "C06-", map[string]bool{"C11-R6": true})
 	r.Rule("C06-R1", "error-sentinel nil safety", "for repository functions returning a bare pointer with a literal-nil return path, every dereference of the result at a call site in reader/writer/server is dominated by the non-nil outcome of a nil test", 1)
 	r.Rule("C06-R2", "error events name a task", "every api.ReplicateAPIEvent literal with EventType ReplicateError stores TaskID from a task-id value (parameter, field or context getter), not a constant", 2)
 	r3 := r.Rule("C06-R3", "no reachable panic on the replication path", "from every goroutine literal / go target / pool task of core/reader, core/writer and server, no builtin panic, log.Panic*, log.Fatal* or os.Exit is reachable in the VTA call graph unless allow-listed with a reason", 10)
